@@ -315,8 +315,8 @@ def c12(res):
     res.nontrivial += len(recs)
     res.notes.append("HasDiscoveries::matches: %d (property list, discovery set, variant) cases, all judged; Matches is monotone" % len(recs))
     # (b) finish conditions x targets x depth limits x strategies x threads on small graphs
-    graphs = gg.f1_corpus(rng, 250 if q else None)
-    graphs += [gg.random_graph(rng, "F2-%d" % i, 3, 10) for i in range(500 if q else 6000)]
+    graphs = gg.f1_corpus(rng, 250 if q else 5000)
+    graphs += [gg.random_graph(rng, "F2-%d" % i, 3, 10) for i in range(500 if q else 5000)]
     graphs += [gg.random_forest(rng, "F3-%d" % i, 4, 12) for i in range(100 if q else 1000)]
 
     def cfgs(i, g):
